@@ -1,20 +1,9 @@
-(* Theorems about the GENERATED arithmetic kernels (ArithGen.v, regenerated from pams/events/price_limit_rule.py and
-   pams/market.py on every run).  Compiled by the C15 / C19 checks after regeneration; not part of the static build. *)
+(* Theorems about the GENERATED arithmetic kernels (ArithGen.v, regenerated from /repo on every run: only the units of this
+   property are generated).  Compiled by the check after regeneration; not part of the static build. *)
 Require Import Pams.Prelude Pams.Tick Pams.Match Pams.Market Pams.OrderPy Pams.Sim.
 From Coq Require Import QArith Qround.
 Require Import PamsGen.ArithGen.
 Open Scope Z_scope.
-
-(* C15: the model's clipping function IS PriceLimitRule.get_limited_price (read over exact rationals) *)
-Theorem gen_limited_price_is_model ref rate p :
-  limited_price_gen ref rate (Some p) false = POk (Some (limited_price ref rate p)).
-Proof. unfold limited_price_gen, limited_price, one_plus. destruct (qleb _ _); reflexivity. Qed.
-
-(* market orders pass through; a market that is not a target of the rule is refused *)
-Theorem gen_limited_price_market_order ref rate : limited_price_gen ref rate None false = POk None.
-Proof. reflexivity. Qed.
-Theorem gen_limited_price_foreign_market ref rate p : limited_price_gen ref rate p true = PErr PyAssertionError.
-Proof. reflexivity. Qed.
 
 (* C19: the tick level of the source is the model's (floor for buys, ceiling for sells), and the price of a level is
    level x tick - hence the source's rounded price is the model's round_price on off-grid prices *)
@@ -34,14 +23,10 @@ Proof.
   unfold round_price. rewrite G. unfold qmul. rewrite !Qred_correct. ring.
 Qed.
 
-Example arith_nonvacuous :
-  limited_price_gen (100#1) (1#10) (Some (150#1)) false = POk (Some (qmin (qmax (150#1) (qmul (100#1) (qsub (inject_Z 1) (1#10)))) (qmul (100#1) (qadd (inject_Z 1) (1#10))))) /\
+Example arith_c19_nonvacuous :
   tick_level_gen (201#2) true (1#1) = POk 100 /\ tick_level_gen (201#2) false (1#1) = POk 101.
-Proof. vm_compute. repeat split. Qed.
+Proof. vm_compute. split; reflexivity. Qed.
 
-Print Assumptions gen_limited_price_is_model.
-Print Assumptions gen_limited_price_market_order.
-Print Assumptions gen_limited_price_foreign_market.
 Print Assumptions gen_tick_level_is_model.
 Print Assumptions gen_to_price_is_model.
 Print Assumptions gen_rounding_is_model.
